@@ -369,3 +369,60 @@ Theorem C06_no_other_failure_example :
 Proof. exact no_other_failure_example. Qed.
 Print Assumptions C06_no_other_failure_example.
 
+
+(* ---- the same along MULTI-VERSION histories under the identity converter (Proofs/MultiVersion.v,
+   corollaries of the transparency theorem of C20): every operation of the history at its own
+   version label (one schema behind every label, any visiting order of the versions), the
+   last operation at an arbitrary label; updates inside the history submit neither empty
+   lists nor duplicate members (the restriction of Proofs/Transparent.v). ---- *)
+From Coq Require Import List ZArith String Bool Arith Lia Permutation.
+From SMD Require Import Model.Value Model.Order Model.PathElem Model.PathSet Model.Schema Model.Walk
+  Model.Validate Model.FieldSet Model.Remove Model.Merge Model.Compare Model.Matcher Model.Reconcile
+  Model.Updater
+  Spec.PathsAsSets Spec.RefValid Spec.Resolve Spec.Agree Spec.RefDiff Spec.Examples
+  Proofs.OrderLaws Proofs.PathSetLaws Proofs.SchemaOk Proofs.FieldSetBase Proofs.FieldSetPaths
+  Proofs.FieldSetWf Proofs.FieldSetLaws Proofs.RemoveAbsent Proofs.RemoveWf Proofs.ResolveLaws
+  Proofs.UpdaterLaws Proofs.UpdaterLaws2 Proofs.MergeLaws Proofs.MergeAgree
+  Proofs.RemoveFrame Proofs.EnLaws Proofs.NodeSet Proofs.KeyFields Proofs.VeqbResolve
+  Proofs.SetCheckers Proofs.ApplyEffect Proofs.Visible Proofs.ApplyInv Proofs.History
+  Proofs.TransparentPrune Proofs.TransparentCore Proofs.TransparentStep Proofs.Transparent
+  Proofs.Reapply Proofs.ConflictsApply Proofs.NoOtherFailure Proofs.RecordsHistory
+  Proofs.MultiVersionBase.
+From SMD Require Proofs.ApplyPrune.
+From SMD Require Import Proofs.MultiVersion.
+Theorem C06_owned_paths_present_multi_version :
+  forall (c : config) (R : typeref -> Prop) (ver : string) (ops : list vhop) 
+           (m : string) (r : mrec) (p : path),
+         setting_ok c R ver ->
+         one_schema c ver ->
+         order_perm c ->
+         Forall (vop_ok c ver) ops ->
+         In (m, r) (snd (vrun c ver ops)) ->
+         wf_path p = true ->
+         ps_has p (mr_set r) = true ->
+         present (schema_of c ver) (tr_of c ver) (snd (fst (vrun c ver ops))) p = true.
+Proof. exact mv_every_record_present. Qed.
+Print Assumptions C06_owned_paths_present_multi_version.
+
+Theorem C06_objects_valid_multi_version :
+  forall (c : config) (R : typeref -> Prop) (ver : string) (ops : list vhop),
+         setting_ok c R ver ->
+         one_schema c ver ->
+         order_perm c ->
+         Forall (vop_ok c ver) ops ->
+         ops <> nil \/ conforms (schema_of c ver) (tr_of c ver) true VNull = true ->
+         conforms (schema_of c ver) (tr_of c ver) true (snd (fst (vrun c ver ops))) = true.
+Proof. exact mv_reachable_objects_valid. Qed.
+Print Assumptions C06_objects_valid_multi_version.
+
+Theorem C06_no_other_failure_multi_version :
+  forall (c : config) (R : typeref -> Prop) (ver : string) (ops : list vhop)
+           (o : string * hop),
+         setting_ok c R ver ->
+         one_schema c ver ->
+         order_perm c ->
+         Forall (vop_ok c ver) ops ->
+         op_ok c ver (snd o) -> vstep_outcome_ok c (vrun c ver ops) o.
+Proof. exact mv_no_other_failure. Qed.
+Print Assumptions C06_no_other_failure_multi_version.
+
